@@ -849,6 +849,8 @@ class Interp:
         ordn = fr.loop_ord
         fr.loop_ord += 1
         spec = self.loop_spec(fr, ordn, st)
+        if spec is not None and not spec.applies(self, it):
+            spec = None            # concrete-length / ill-typed iterable: the real loop is executed as it is
         if spec is None:
             broke = False
             for v in self.iterate(it):
@@ -1348,6 +1350,14 @@ class Interp:
                 mm = 1 << k
                 if not ctx.feasible(z3.Not(z3.And(x % mm == 0, 0 <= y, y < mm))):
                     return z3.IntVal(0)
+        # one operand provably a small non-negative number: a & y = sum over its bits
+        for (x, y) in ((a, b), (b, a)):
+            for w in (8, 16):
+                if not ctx.feasible(z3.Not(z3.And(0 <= y, y < (1 << w)))):
+                    tot = z3.IntVal(0)
+                    for i in range(w):
+                        tot = tot + z3.If((y / (1 << i)) % 2 == 1, ((x / (1 << i)) % 2) * (1 << i), 0)
+                    return tot
         W = None
         for w in (8, 16, 32):
             if not ctx.feasible(z3.Not(z3.And(0 <= a, a < (1 << w), 0 <= b, b < (1 << w)))):
@@ -1662,12 +1672,19 @@ class Interp:
                     if not is_intlike(i):
                         py_raise(TypeError, 'slice indices must be integers')
                     i = zi(i)
-                    i = z3.If(i < 0, i + n, i)
-                    return z3.If(i < 0, z3.IntVal(0), z3.If(i > n, n, i))
+                    # Python's clamping of slice bounds; the cases that cannot occur on this path are dropped so
+                    # that the terms stay small (each test is one feasibility query)
+                    if ctx.feasible(i < 0):
+                        i = z3.If(i < 0, i + n, i)
+                        i = z3.If(i < 0, z3.IntVal(0), i)
+                    if ctx.feasible(i > n):
+                        i = z3.If(i > n, n, i)
+                    return i
                 a = norm(k.lo, z3.IntVal(0))
                 b = norm(k.hi, n)
                 a, b = z3.simplify(a), z3.simplify(b)
-                return SSeq(z3.Extract(o.e, a, z3.If(b > a, b - a, z3.IntVal(0))), o.pycls if o.pycls in (list, tuple, bytes, bytearray) else _basefam(o.pycls), o.ek)
+                ln = b - a if not ctx.feasible(b < a) else z3.If(b > a, b - a, z3.IntVal(0))
+                return SSeq(z3.Extract(o.e, a, z3.simplify(ln)), o.pycls if o.pycls in (list, tuple, bytes, bytearray) else _basefam(o.pycls), o.ek)
             if isinstance(o, SStr):
                 return self.models.str_slice(self, o, k)
             if is_sym(k.lo) or is_sym(k.hi):
@@ -1692,9 +1709,14 @@ class Interp:
             i = zi(k)
             if not ctx.branch(z3.And(-n <= i, i < n)):
                 py_raise(IndexError, 'index out of range')
-            i = z3.simplify(z3.If(i < 0, i + n, i))
+            i = z3.simplify(z3.If(i < 0, i + n, i) if ctx.feasible(i < 0) else i)
             ctx.add_pool(i)
-            return o.ek.wrap(o.e[i])
+            item = o.e[i]
+            if o.ek is INT_EK:
+                sv = z3.simplify(item)
+                if z3.is_int_value(sv):
+                    item = sv          # e.g. element 1 of [0xFF, 0x51] ++ ...: a constant
+            return o.ek.wrap(item)
         if isinstance(o, SStr):
             return self.models.str_index(self, o, k)
         if isinstance(o, dict):
